@@ -15,7 +15,7 @@ assert rc == 0, out
 try:
     meta = json.load(open(os.path.join(src, 'meta.json')))
     demos = [f for f in os.listdir(src) if f.endswith('_test.go')]
-    place = meta.get('demo_placement', '')
+    place = meta.get('demo_placement', '').split(' ')[0].strip()
     rc, out = sh('git apply %s/patch.diff' % src, wt); assert rc == 0, 'patch does not apply: ' + out
     rc_build, out = sh('go build ./... && go build -tags verif ./...', wt)
     rc_suite, out_suite = sh('go test -vet=off -count=1 ./... 2>&1 | grep -v "no test files" | grep -v "^ok" | head -20', wt)
